@@ -1,7 +1,7 @@
 SPECIFICATION MCSpec
 CONSTANTS
   Names = {1}
-  Enis = {1, 2}
+  Enis = {1, 2, 3}
   Calls = {1, 2}
   Enforce = {"C10", "C11"}
   Lenient = TRUE
@@ -9,13 +9,13 @@ CONSTANTS
   Slack = 0
   MaxUid = 2
   MaxT = 3
-  MaxDepth = 2
+  MaxDepth = 1
   EnvDepth = 1
-  Nodes = {1}
+  Nodes = {1, 2}
   Kinds = {"e", "t", "n"}
   TTL = 2
   MaxLen = 0
   GenOn = FALSE
-  StrayOn = FALSE
+  StrayOn = TRUE
 INVARIANTS NoUnrecorded FixedKept FramesSane
 CHECK_DEADLOCK FALSE
